@@ -84,8 +84,10 @@ class SignalGet(FnSpec):
                                                                    patterns=[F.new.d_has(inner_new, k2)]),
                                                          z3.ForAll([k2], z3.Implies(k2 != topic, F.new.d_get(inner_new, k2) == F.old.d_get(inner_new, k2)),
                                                                    patterns=[F.new.d_get(inner_new, k2)])))),
-            ("owner-tags", z3.And(z3.ForAll([x], z3.Implies(x < F.old.alloc, F.same_at("g:owner", x)), patterns=[z3.Select(F.new.h("g:owner"), x)]),
-                                  z3.Implies(inst != VNone, z3.Select(F.new.g("g:owner"), inner_new) == Val.pair(inst, con("own:bound-signals"))))),
+            ("owner-tags", z3.And(z3.ForAll([x], z3.Implies(z3.And(x < F.old.alloc, z3.Not(was)), F.same_at("g:owner", x)), patterns=[z3.Select(F.new.h("g:owner"), x)]),
+                                  z3.Implies(was, F.same("g:owner")),
+                                  z3.Implies(z3.And(inst != VNone, z3.Not(was)), z3.And(z3.Select(F.new.g("g:owner"), inner_new) == Val.pair(inst, con("own:bound-signals")),
+                                                                   z3.Select(F.new.g("g:owner"), Val.a(F.new.fld("_send_streams", ra))) == Val.pair(r, con("own:send-streams")))))),
             ("first-inner-table-is-fresh", z3.Implies(z3.And(inst != VNone, z3.Not(F.old.d_has(b, inst))),
                                                       z3.And(F.fresh(F.new.d_get(b, inst)),
                                                              z3.ForAll([k2], F.new.d_has(inner_new, k2) == (k2 == topic),
@@ -93,6 +95,11 @@ class SignalGet(FnSpec):
             # existing objects (other signals, other dicts, other lists) are untouched
         ]
         for c in ("d_has", "d_get"):
+            # in terms of ownership: only dicts owned by the binding machinery are written
+            out.append((f"only-binding-tables-written:{c}",
+                        z3.ForAll([x], z3.Implies(z3.And(0 <= x, x < F.old.alloc,
+                                                         Val.snd(z3.Select(F.old.g("g:owner"), x)) != con("own:bound-signals")),
+                                                  F.same_at(c, x)), patterns=[z3.Select(F.new.h(c), x)])))
             out.append((f"old-dicts-untouched:{c}",
                         z3.ForAll([x], z3.Implies(z3.And(0 <= x, x < F.old.alloc, x != b,
                                                          z3.Not(z3.And(F.old.d_has(b, inst), x == Val.a(F.old.d_get(b, inst))))),
@@ -110,16 +117,26 @@ class SignalGet(FnSpec):
         inst = st.env["instance"].t
         b = bs_addr(eng.reg)
         inner = Val.a(st.d_get(b, inst))
-        st.heap["g:owner"] = z3.If(inst != VNone, z3.Store(st.heap["g:owner"], inner, Val.pair(inst, con("own:bound-signals"))),
-                                   st.heap["g:owner"])
+        sig = st.d_get(inner, st.fld("_topic", Val.a(st.env["self"].t)))
+        lst = Val.a(st.fld("_send_streams", Val.a(sig)))
+        if not eng.feasible(st.fork(inst != VNone)):
+            return          # class-level access: nothing is bound
+        if not any(e[0] == "new" and e[1] == "Signal" for e in st.trace):
+            return          # re-access: nothing new to tag
+        tagged = z3.Store(z3.Store(st.heap["g:owner"], inner, Val.pair(inst, con("own:bound-signals"))),
+                          lst, Val.pair(sig, con("own:send-streams")))
+        st.heap["g:owner"] = tagged
 
     def call_site_extra(self, F):
         # A-DESC (descriptor wiring, assumed): an instance reaches exactly one declaration per attribute name, and every
         # signal stored in the binding table was created by __get__ from that declaration - so also on re-access the
         # returned signal is bound and carries the declaration's event class (proved here only for first access)
         F.new_st.uses.add("A-DESC")
+        F.new_st.uses.add("A-SIGWF")
         r = Val.a(F.result.t)
-        return [("A-DESC", z3.Implies(F.t("instance") != VNone,
+        from .c_dispatch import sig_wf
+        return [("A-SIGWF", z3.Implies(F.t("instance") != VNone, sig_wf(F.new, r))),
+                ("A-DESC", z3.Implies(F.t("instance") != VNone,
                                       z3.And(F.new.isset("_instance", r),
                                              F.new.fld("event_class", r) == F.old.fld("event_class", F.addr("self")),
                                              F.new.fld("_topic", r) == F.old.fld("_topic", F.addr("self")))))]
@@ -196,6 +213,10 @@ def register(reg):
                                       "Signal.__get__ writes the binding table, so a re-accessed bound signal is bound and carries the "
                                       "declaration's event class and topic (proved for first access, assumed for re-access)")
 
+    reg.assumptions_text["A-SIGWF"] = ("I_sig: the subscriber list of a bound signal holds pairwise distinct send streams whose send end is open; "
+                                       "established by Signal._subscribe's verified bracket (append on entry, remove of the same stream on every exit) "
+                                       "and stream_events unsubscribing before it closes the stream ends (bounded harness), assumed at dispatch call sites")
+
     # ghost event log: only grows (G-ev); unallocated signals have an empty log (I-ev0)
     def g_ev(old, new):
         x = z3.Const("x!gev", I)
@@ -233,10 +254,13 @@ def register(reg):
         return z3.ForAll([k, tp], z3.Implies(bound_has(H, reg, k, tp),
                                              z3.And(Val.is_ref(sig), 0 <= a_, a_ < H.alloc, H.isset("_instance", a_),
                                                     H.fld("_topic", a_) == tp, H.fld("_instance", a_) == Val.wref(k),
-                                                    subcls(H.fld("__class__", a_), con("Signal")))),
+                                                    subcls(H.fld("__class__", a_), con("Signal")),
+                                                    Val.is_ref(H.fld("_send_streams", a_)), 0 <= Val.a(H.fld("_send_streams", a_)),
+                                                    Val.a(H.fld("_send_streams", a_)) < H.alloc,
+                                                    z3.Select(H.g("g:owner"), Val.a(H.fld("_send_streams", a_))) == Val.pair(sig, con("own:send-streams")))),
                          patterns=[H.d_has(Val.a(H.d_get(bs_addr(reg), k)), tp)])
     reg.invariants.append(("I-bsig:bound-signals-record-their-instance-and-attribute", i_bsig,
-                           ("d_has", "d_get", "fld:_topic", "fld:_instance", "set:_instance", "fld:__class__", "alloc"), {"lazy": True}))
+                           ("d_has", "d_get", "fld:_topic", "fld:_instance", "set:_instance", "fld:__class__", "alloc", "fld:_send_streams", "g:owner"), {"lazy": True}))
 
     def g_bind(old, new, reg=reg):
         """G-bind: a binding, once made, is never changed or removed (while the instance is alive)"""
